@@ -28,7 +28,12 @@ def jobs_for(ctx):
              dict(max_dict_size=100, max_columns=2, hash="murmur", seed=1), dict(max_dict_size=100, max_columns=3, hash="murmur", seed=2),
              dict(max_dict_size=100, max_columns=8, hash="murmur", seed=3), dict(max_dict_size=3, max_columns=5, hash="murmur", seed=4),
              dict(max_dict_size=100, max_columns=1 << 16, hash="murmur", seed=5),
-             dict(max_dict_size=100, max_columns=7, hash="murmur", seed=6, base={"a": 1, "b": 1})]
+             dict(max_dict_size=100, max_columns=7, hash="murmur", seed=6, base={"a": 1, "b": 1}),
+             # base phrases that share a hashed column: their initial counts add up
+             dict(max_dict_size=100, max_columns=2, hash="murmur", seed=7, base={"a": 1, "b": 2, "ab": 3, "ba": 1}),
+             dict(max_dict_size=100, max_columns=3, hash="murmur", seed=8, base={"a": 2, "b": 1, "aa": 1, "bb": 4, "ab": 1}),
+             dict(max_dict_size=6, max_columns=3, hash="murmur", seed=9, base={"a": 1, "b": 1, "aa": 2, "bb": 1}),
+             dict(max_dict_size=100, max_columns=None, hash="custom", base={"a": 1, "b": 2, "ab": 1, "bb": 1})]
     n = ctx.n(ctx.pick(700, 8000))
     extra = ["abcabc", "aaaaaaaa", "abababab", "a", "", "é中é中", "xyzzy", "abcabcabcabc"]
     while len(jobs) < n:
